@@ -190,6 +190,21 @@ static MPT_STRUCT(stream) *ep_stream(int e)
 	if (!con || MPT_socket_active(&con->out.sock)) return 0;
 	return (MPT_STRUCT(stream) *) con->out.buf._buf;
 }
+static int fd_readable(int fd)
+{
+	struct pollfd p;
+	p.fd = fd; p.events = POLLIN; p.revents = 0;
+	return fd >= 0 && poll(&p, 1, 0) > 0 && (p.revents & POLLIN);
+}
+/* a stream reads 64 bytes per poll: ask again while its descriptor is readable (as an event loop does) */
+static int stream_fill(MPT_STRUCT(stream) *srm, MPT_INTERFACE(input) *in)
+{
+	int r, guard = 0, fd = _mpt_stream_fread(&srm->_info);
+	do {
+		r = in ? in->_vptr->next(in, POLLIN) : mpt_stream_poll(srm, POLLIN, 0);
+	} while (r >= 0 && fd_readable(fd) && ++guard < 256);
+	return r;
+}
 /* what end e has sent -> in-flight list of its direction */
 static void collect_from(int e)
 {
@@ -198,7 +213,7 @@ static void collect_from(int e)
 		MPT_STRUCT(stream) *srm = ep_stream(e);
 		int r, guard = 0;
 		if (srm) mpt_stream_poll(srm, POLLOUT, -1);    /* the event loop's part: flush */
-		if (mpt_stream_poll(&ep[e].tap, POLLIN, 0) < 0) return;
+		if (stream_fill(&ep[e].tap, 0) < 0) return;
 		collect_dir = e;
 		do {
 			r = mpt_stream_dispatch(&ep[e].tap, collect_frame, 0);
@@ -231,20 +246,25 @@ static int transfer(int e, const struct pkt *p)
 	}
 	return send(ep[e].tapfd, p->d, p->len, 0) < 0 ? -103 : 0;
 }
+/* the event loop's part (mpt_notify_wait): an input whose descriptor is readable is asked for
+ * its next state and scheduled for dispatch when that is positive */
 static int ep_poll(int e)
 {
-	if (via_remote) return ep[e].in->_vptr->next(ep[e].in, POLLIN);
 	if (is_stream) {
 		MPT_STRUCT(stream) *srm = ep_stream(e);
-		return srm ? mpt_stream_poll(srm, POLLIN, 0) : -200;
+		return srm ? stream_fill(srm, via_remote ? ep[e].in : 0) : -200;
 	}
-	return mpt_outdata_recv(&ep[e].con->out);
+	if (!fd_readable(ep[e].con->out.sock._id)) return 0;
+	if (via_remote) return ep[e].in->_vptr->next(ep[e].in, POLLIN);
+	/* struct connection used directly: the caller receives, then dispatches */
+	return mpt_outdata_recv(&ep[e].con->out) < 0 ? -201 : 1;
 }
 static int ep_dispatch(int e)
 {
 	if (via_remote) return ep[e].in->_vptr->dispatch(ep[e].in, handler, (void *) (intptr_t) e);
 	return mpt_connection_dispatch(ep[e].con, handler, (void *) (intptr_t) e);
 }
+static int holding, hold_rp;
 
 /* ---- set up / tear down ---- */
 static void ep_clear(int e)
@@ -267,7 +287,7 @@ static void drv_reset(void)
 		nflight[d] = 0;
 	}
 	memset(req_have, 0, sizeof(req_have));
-	saved_rc = 0; idlen = 0;
+	saved_rc = 0; idlen = 0; holding = 0;
 }
 static int ep_open(int e, const char *how)
 {
@@ -511,11 +531,18 @@ static void drv_step(struct cmd *c)
 		if (!d && !strcmp(act, "defer") && (defer_slot < 1 || defer_slot > MAXH || hd[defer_slot])) {
 			out_simple(c, "skipped"); free(rdata); return;
 		}
-		if (!take_flight(d, k, &p)) { out_simple(c, "skipped"); free(rdata); return; }
-		rt = transfer(e, &p);
-		free(p.d);
+		/* not in the model's environment: a stream out of order, a second receive over a held datagram */
+		if ((is_stream && (only_hold || k > 1)) || (d && holding)) { out_simple(c, "skipped"); free(rdata); return; }
+		if (d && !k && !only_hold) {
+			rt = 0;                                    /* what reached the socket earlier */
+		} else {
+			if (!take_flight(d, k, &p)) { out_simple(c, "skipped"); free(rdata); return; }
+			rt = transfer(e, &p);
+			free(p.d);
+		}
 		rp = ep_poll(e);
-		if (!only_hold) rd = ep_dispatch(e);
+		if (only_hold) { holding = 1; hold_rp = rp; }
+		else if (rp > 0) rd = ep_dispatch(e);
 		collect_from(0); collect_from(1);
 		drv_begin(c);
 		j_str("ret", "ok");
@@ -529,7 +556,10 @@ static void drv_step(struct cmd *c)
 		drv_end();
 	}
 	else if (!strcmp(a, "dispatch")) {
-		int rd = ep_dispatch(0);
+		int rd;
+		if (!holding) { out_simple(c, "skipped"); free(rdata); return; }
+		holding = 0;
+		rd = hold_rp > 0 ? ep_dispatch(0) : 0;
 		collect_from(0); collect_from(1);
 		drv_begin(c);
 		j_str("ret", "ok");
@@ -552,7 +582,9 @@ static void drv_step(struct cmd *c)
 			if (ks[i] < 1 || ks[i] > nflight[1]) ok = 0;
 			for (j = 0; j < i; j++) if (ks[j] == ks[i]) ok = 0;
 		}
-		if (!ok || (!via_remote && !is_stream)) { free(ks); out_simple(c, "skipped"); free(rdata); return; }
+		if (!ok || holding || (!via_remote && !is_stream)) { free(ks); out_simple(c, "skipped"); free(rdata); return; }
+		for (i = 0; ok && is_stream && i < n; i++) if (ks[i] != (long long) i + 1) ok = 0;
+		if (!ok) { free(ks); out_simple(c, "skipped"); free(rdata); return; }
 		for (i = 0; i < n; i++) p[i] = flight[1][ks[i] - 1];
 		{
 			int j, m = 0;
@@ -598,7 +630,7 @@ static void drv_step(struct cmd *c)
 		const char *dir = drv_raw(c, "dir");
 		int d = (dir && !strcmp(dir, "AB")) ? 0 : 1;
 		struct pkt p;
-		if (!take_flight(d, (int) drv_int(c, "k", 1), &p)) { out_simple(c, "skipped"); free(rdata); return; }
+		if (is_stream || !take_flight(d, (int) drv_int(c, "k", 1), &p)) { out_simple(c, "skipped"); free(rdata); return; }
 		free(p.d);
 		drv_begin(c); j_str("ret", "ok"); drv_dbg(); emit_dbg(); drv_end();
 	}
@@ -620,6 +652,19 @@ static void drv_step(struct cmd *c)
 		j_int("r", r);
 		emit_dbg();
 		drv_end();
+	}
+	else if (!strcmp(a, "close")) {
+		/* A closes first (its waiting callers are told), then B; nothing is possible afterwards */
+		int i;
+		mpt_connection_close(ep[0].con);
+		drv_begin(c);
+		j_str("ret", "ok");
+		emit_calls();
+		drv_dbg();
+		emit_dbg();
+		drv_end();
+		for (i = 1; i <= MAXH; i++) hd[i] = 0;
+		ep_clear(0); ep_clear(1);
 	}
 	else if (!strcmp(a, "late")) {
 		int r;
